@@ -186,6 +186,9 @@ func genTemplates(rng *PRNG, n int) []string {
 			case rng.Chance(2, 5):
 				// sibling templates may spell the variable of one position differently
 				segs = append(segs, fmt.Sprintf("{%s%d}", Pick(rng, []string{"v", "v", "w", "id"}), d))
+			case rng.Chance(1, 8):
+				// literal text outside ASCII: its length in bytes and in characters differ
+				segs = append(segs, Pick(rng, []string{"ñu", "日本", "é"}))
 			default:
 				segs = append(segs, Pick(rng, litAlpha))
 			}
@@ -398,6 +401,14 @@ func genRouteSpec(rng *PRNG, name string, secMode bool, paramMode bool) routeSpe
 	} else {
 		rs.SpecName = "openapi.json"
 	}
+	if rng.Chance(1, 5) {
+		// directory mode with a spec file name of its own: the handler name, when given, is still the
+		// name the spec is served under; the file name on disk is only where the spec is read from
+		rs.Gen.DirSpecName = "api.json"
+		if rs.Gen.SpecHandler == "" {
+			rs.SpecName = "api.json"
+		}
+	}
 	return rs
 }
 
@@ -536,7 +547,8 @@ func facetRoute(args []string) error {
 	stats := map[string]int{}
 	for i, rs := range specs {
 		r := results[i]
-		fmt.Fprintf(gf, "%s\t%s\t%s\t%s\t%s\n", r.Name, r.Outcome, hexs(firstLine(r.Detail)), hexs(brokenOrFmt(r)), hexs(string(rs.Gen.Spec)))
+		inv, _ := json.Marshal(map[string]any{"basepath": rs.Gen.BasePath, "spec_handler_name": rs.Gen.SpecHandler, "dir_mode_spec_file_name": rs.Gen.DirSpecName, "cors": rs.Gen.Cors, "donotedit": rs.Gen.DoNotEdit, "client": rs.Gen.Client})
+		fmt.Fprintf(gf, "%s\t%s\t%s\t%s\t%s\t%s\n", r.Name, r.Outcome, hexs(firstLine(r.Detail)), hexs(brokenOrFmt(r)), hexs(string(rs.Gen.Spec)), hexs(string(inv)))
 		if r.Outcome != "ok" || r.Broken != "" {
 			stats["spec_not_driven"]++
 			continue
@@ -791,7 +803,7 @@ func genRequestPaths(rng *PRNG, rs routeSpec, maxDepth, randomDeep int) []string
 		rel = append(rel, sb.String())
 	}
 	// template-directed requests: instantiate each template with values (so deep templates are hit)
-	vals := []string{"a", "z", "7", "-3", "true", "", "2147483648", "9223372036854775808", "x y"}
+	vals := []string{"a", "z", "7", "-3", "true", "", "2147483648", "9223372036854775808", "x y", " 42", "7 ", " true", "1.5 ", "\tz", " ", "2024-01-02T03:04:05Z\n"}
 	for _, t := range rs.Templates {
 		for i := 0; i < 6; i++ {
 			segs := strings.Split(t, "/")[1:]
